@@ -209,7 +209,8 @@ fn run(ctx: &mut Ctx) {
             // block counts at and beyond 2^12 and 2^16 (hide accepts any length padding)
             // every 16th giant case (thorough: more) goes past 2^24 octets, where single-precision
             // arithmetic stops being exact
-            let colossal = ctx.idx % 16 == 7;
+            // (release build only: two MD5 implementations over 16 MiB take the debug build half a minute)
+            let colossal = ctx.idx % 16 == 7 && ctx.build != "dbg";
             let blocks = if colossal { (1usize << 20) + *ctx.rng.pick(&[1usize, 2, 3]) } else { *ctx.rng.pick(&[4_095usize, 4_096, 4_097, 65_535, 65_536, 65_537, 65_540]) };
             let a = val::avp_kind(&mut ctx.rng, (ctx.idx % 39) as usize, 40);
             let plen = senc::payload(&a).len();
